@@ -64,8 +64,12 @@ STRING_ESCAPES = {ord("\\"): 92, ord('"'): 34, ord("a"): 7, ord("b"): 8, ord("f"
                   ord("t"): 9, ord("v"): 11, ord("0"): 0}
 
 
+sym_in_strings = []
+
+
 def read_all(items):
     """read every top-level datum of the rope"""
+    del sym_in_strings[:]
     items = list(items)
     pos = [0]
     n = len(items)
@@ -168,7 +172,12 @@ def read_all(items):
                 pos[0] += 1
                 continue
             if not isinstance(c, int):
-                raise ReadError("symbolic character inside string (use symread for symbolic ropes)")
+                # a symbolic character inside a string literal: taken as data; callers assume (and state) that it is
+                # neither a double quote nor a backslash -- C04 decides what happens when it is
+                out.append(c)
+                sym_in_strings.append(c)
+                pos[0] += 1
+                continue
             if c == 34:
                 pos[0] += 1
                 return Str(out, (start, pos[0]))
